@@ -38,9 +38,13 @@ static void pool_case(Case& c) {
     stats.add("shape_" + std::to_string(rows) + "x" + std::to_string(cols));
     int nops = rng.in(5, 14), kinds = 0; unsigned kindmask = 0;
     int step = rng.in(0, 4);
+    // move-heavy cases: cells are emptied and refilled, so the suitable-cell list grows out of order
+    bool move_heavy = rng.coin(15);
+    if (move_heavy) { nops = rng.in(8, 20); stats.add("cases_move_heavy"); }
     for (int op = 0; op < nops; op++) {
         int a = rng.in(0, rows - 1), b = rng.in(0, cols - 1);
         int kind = rng.in(0, 12);
+        if (move_heavy && rng.coin(70)) kind = 5;
         std::string err;
         std::ostringstream line, ret;
         switch (kind) {
@@ -76,6 +80,7 @@ static void pool_case(Case& c) {
         case 5: {
             int a2 = rng.in(0, rows - 1), b2 = rng.in(0, cols - 1);
             int k = rng.coin(30) ? rng.in(0, 80) : rng.in(0, 12);
+            if (move_heavy && rng.coin(60)) k = rng.in(60, 200);  // everything the cell holds
             int v = 0; err = err_kind([&] { v = pool.move_hosts_from_to(a, b, a2, b2, k, prov.movement()); });
             line << "hp.move " << a << " " << b << " " << a2 << " " << b2 << " " << k; ret << v; stats.add("op_move");
             if (a == a2 && b == b2) stats.add("move_same_cell"); break; }
